@@ -90,6 +90,10 @@ func makeReader(kind int, data []byte) avro.Reader {
 		return bytes.NewReader(data)
 	case kind == 1:
 		return bufio.NewReaderSize(bytes.NewReader(data), 16)
+	case kind == 50:
+		return bytes.NewBuffer(append([]byte(nil), data...)) // a *bytes.Buffer is a Reader too
+	case kind == 51:
+		return bufio.NewReader(bytes.NewReader(data)) // default 4096-byte buffer
 	case kind >= 100:
 		return &shortReader{data: data, max: kind - 99, eofWithData: true}
 	}
@@ -215,7 +219,7 @@ func drawEncCase(t *rapid.T) encCase {
 		c.FlushAfter = append(c.FlushAfter, rapid.SampledFrom([]int{0, 0, 0, 0, 1, 1, 2}).Draw(t, "flush"))
 	}
 	c.ByPointer = rapid.Bool().Draw(t, "byPointer")
-	c.Reader = []int{0, 0, 1, 2, 4, 8, 100, 4195}[gen.Uniform(t, "reader", 8)]
+	c.Reader = []int{0, 0, 1, 2, 4, 8, 100, 4195, 50, 51}[gen.Uniform(t, "reader", 10)]
 	return c
 }
 
